@@ -172,6 +172,34 @@ def vec_close(c1, c2, tol, scale, n=None):
     return all(close(c1[i], c2[i], tol, scale) for i in range(n))
 
 
+def vec_equiv(system, stored, ref_cart, tol, scale, n=None):
+    """Does the vector stored as (system, stored) denote ref_cart?  Compared in Cartesian components, or - when that
+    direction is ill-conditioned (t recovered from tau next to t=0, z from theta/eta next to the axis) - in the stored
+    coordinates of `system` obtained from ref_cart.  A genuine discrepancy fails both."""
+    cart = R.to_cartesian(system, stored)
+    if vec_close(cart, ref_cart, tol, scale, n):
+        return True
+    if n is not None and n != len(ref_cart):
+        return False
+    try:
+        if not R.representable(system, ref_cart):
+            return False
+        want = R.from_cartesian(system, ref_cart)
+    except ZeroDivisionError:
+        return False
+    names = R.coord_names(system)
+    for nm, g, w in zip(names, stored, want):
+        if nm == "phi":
+            if not R.angle_close(g, w, tol * 4):
+                return False
+        elif nm in ("theta", "eta"):
+            if not close(g, w, tol * 4, 1):
+                return False
+        elif not close(g, w, tol, scale):
+            return False
+    return True
+
+
 def fmt(x):
     if isinstance(x, (tuple, list)):
         return "(" + ", ".join(fmt(p) for p in x) + ")"
